@@ -598,6 +598,7 @@ def run_impl(case):
             out = S.serialize_value(value)
         obs['ser'] = {'ok': jenc(out)}
     except TypeError as e:
+        _reraise_watchdog(e)
         obs['ser'] = {'err': 'TypeError'}
         msg = str(e)
         obs['msg_ok'] = None
@@ -707,6 +708,18 @@ def run_impl(case):
                 and type(back) is str:
             fails.append('tag-dispatch: a string matching the units pattern was returned as is')
     return {'obs': obs, 'fails': fails}
+
+
+def _reraise_watchdog(e):
+    """the runner's per-case watchdog raises inside whatever is running; orjson turns an
+    exception raised in the fallback hook into a TypeError — do not take that for a verdict"""
+    from harness import lib
+    seen = 0
+    while e is not None and seen < 10:
+        if isinstance(e, lib.CaseTimeout):
+            raise e
+        e = e.__cause__ or e.__context__
+        seen += 1
 
 
 def _expected_bad(spec, env, curr=()):
@@ -1183,10 +1196,24 @@ def compare(case, impl, model):
     return '; '.join(diffs) if diffs else None
 
 
+KNOWN_ID = 'F22'   # id to use in known_findings.json if the nan-prefix defect is recorded there
+
+
+def _recorded():
+    from harness import lib
+    return any(e.get('id') == KNOWN_ID and e.get('status') == 'known' for e in lib.load_known(PROP))
+
+
 def oracle(case, impl):
     if not isinstance(impl, dict) or 'fails' not in impl:
         return [f'probe-crashed: {_short(impl)}']
-    return impl['fails']
+    fails = list(impl['fails'])
+    cand = impl.get('obs', {}).get('candidate')
+    if cand and _recorded():
+        # once the candidate finding is an entry of known_findings.json the two corpus witnesses
+        # are reported as KNOWN-FINDING lines; until then they are only counted in the evidence
+        fails.append('known-nan-prefix: ' + cand)
+    return fails
 
 
 def nontrivial(case, impl):
@@ -1197,7 +1224,7 @@ def nontrivial(case, impl):
 
 
 def classify(case, failure):
-    return None
+    return KNOWN_ID if failure.startswith('known-nan-prefix') else None
 
 
 def stats(results):
